@@ -19,6 +19,7 @@ import (
 	"reduction.dev/reduction/dkv/kv"
 	"reduction.dev/reduction/dkv/storage"
 	"reduction.dev/reduction/util/size"
+	"reduction.dev/reduction/util/verifhook"
 )
 
 var (
@@ -56,7 +57,9 @@ func NewTable(file storage.File) *Table {
 		size:        0,
 	}
 
+	uri := file.URI() // reported at the verification hook point in the cleanup
 	runtime.AddCleanup(t, func(f func() error) {
+		verifhook.At("sst.table.cleanup", uri, "created", true, nil)
 		if err := f(); err != nil {
 			slog.Error("table cleanup", "err", err)
 		}
@@ -108,6 +111,7 @@ func NewTableFromDocument(fs storage.FileSystem, dataOwnership kv.DataOwnership,
 
 	runtime.AddCleanup(t, func(p CleanupParams) {
 		canDelete, err := p.dataOwnership.ExclusivelyOwnsTable(p.uri, p.startKey, p.endKey)
+		verifhook.At("sst.table.cleanup", p.uri, "loaded", canDelete, err)
 		if err != nil {
 			slog.Error("failed determining exclusive ownership, not deleting", "err", err, "uri", p.uri)
 		}
